@@ -373,6 +373,16 @@ class P:
             self.i += 1; return ("str", t[1])
         if t[0] == "chr":
             self.i += 1; return ("chr", t[1])
+        if self.at("["):
+            self.i += 1
+            items = []
+            while not self.at("]"):
+                items.append(self.expr())
+                if self.eat(";"):
+                    raise ParseError("array repeat expression")
+                self.eat(",")
+            self.expect("]")
+            return ("array", items)
         if t == ("id", "true"):
             self.i += 1; return ("bool", True)
         if t == ("id", "false"):
